@@ -48,7 +48,8 @@ Relations == {"same", "default", "absent", "other", "n/a"}
 (* default fact  [section, err, valid, panic]                              *)
 (* load fact     [section, setting, vkind, class, scope, outcome, valid,   *)
 (*                rel, reload, stable, isdefault]                          *)
-(*    scope   "alone" | "manager" | "env"                                  *)
+(*    scope   "alone" | "manager" | "env" | "pair" (next to a value of      *)
+(*            another setting that the loader accepted but did not keep)   *)
 (*    outcome of LoadJSON (ApplyEnvVars for scope env)                     *)
 (*    valid   Validate() = nil on the loaded configuration                 *)
 (*    rel     relation of the saved value of the setting to the value      *)
@@ -69,10 +70,29 @@ AcceptedValid(f) == f.outcome = "accepted" => f.valid
 
 Stable(f) == f.outcome = "accepted" => (f.reload = "accepted" /\ f.stable)
 
-\* a well-formed (= accepted) value that is not a zero is reproduced; it is never replaced by the default
-\* and never disappears from the saved form
+\* Which classes are well-formed values for a setting depends on what the setting holds; the driver reports the
+\* shape of the setting's default value (skind) and this table says which classes are certainly well-formed for
+\* it.  (Acceptance alone proves nothing: consensus/raft deliberately takes a malformed duration as "use the
+\* default", with a warning.)  Lists of free strings are not judged: their elements may be peer IDs, origins ...
+WellFormedFor(skind) ==
+    CASE skind = "duration"       -> {"dur", "dur-neg"}
+      [] skind = "multiaddr"      -> {"maddr"}
+      [] skind = "number"         -> {"one", "typ", "neg", "big"}
+      [] skind = "bool"           -> {"true", "false"}
+      [] skind \in {"text", "unknown"} -> {"str", "path"}
+      [] skind = "list-multiaddr" -> {"arr-typ", "arr-maddr"}
+      [] skind = "map"            -> {"obj-str", "obj-list"}
+      [] OTHER                    -> {}
+
+\* keys that are still parsed but are no settings any more: identity moved to identity.json in 0.11
+Legacy == {<<"cluster", "id">>, <<"cluster", "private_key">>}
+
+\* a well-formed value that the loader accepts and that is not a zero is reproduced; it is never replaced by the
+\* default and never disappears from the saved form
 NotDropped(f) ==
-    (f.outcome = "accepted" /\ f.class \notin ZeroClasses /\ ~f.isdefault) => f.rel \notin {"default", "absent"}
+    (/\ f.outcome = "accepted" /\ f.class \in WellFormedFor(f.skind) /\ f.class \notin ZeroClasses
+     /\ ~f.isdefault /\ <<f.section, f.setting>> \notin Legacy)
+        => f.rel \notin {"default", "absent"}
 
 BrokenLoadLaws(f) ==
     {l \in {"NoPanic", "AcceptedValid", "Stable", "NotDropped"} :
@@ -86,7 +106,7 @@ RejectedAtLoad(f) ==
     /\ ~f.panic
     /\ (f.rejects /\ f.represented) =>
           \/ f.load = "rejected"
-          \/ f.class = "zero" /\ f.load = "accepted" /\ f.asdefault
+          \/ f.class \in {"zero", "nil"} /\ f.load = "accepted" /\ f.asdefault
 
 \* what must never be displayed: the statement's list (cluster secret, private keys, API credentials), and
 \* by name any setting that looks like one
@@ -130,7 +150,9 @@ MFact(k, def, range, v, boolAssign) ==
     LET l  == MLoad(k, def, range, v, boolAssign)
         l2 == MLoad(k, def, range, l.val, boolAssign)
     IN [section |-> "model", setting |-> k, vkind |-> k, scope |-> "alone",
-        class |-> (IF v \in {"zero", "absent"} THEN v ELSE IF v = "malformed" THEN "wrongtype" ELSE v),
+        skind |-> (CASE k = "int" -> "number" [] k = "string" -> "text" [] k = "list" -> "list-multiaddr" [] OTHER -> k),
+        class |-> (CASE v \in {"zero", "absent", "false", "true"} -> v [] v = "malformed" -> "wrongtype"
+                     [] k = "int" -> "typ" [] k = "duration" -> "dur" [] k = "string" -> "str" [] OTHER -> "arr-typ"),
         outcome |-> l.outcome, valid |-> (l.val \in range),
         rel |-> (IF l.val = v THEN "same" ELSE IF l.val = def THEN "default" ELSE "other"),
         reload |-> l2.outcome, stable |-> (l2.val = l.val), isdefault |-> (v = def)]
